@@ -58,13 +58,19 @@ func UtxoValidateOutsideValidityIntervalUtxo(
 	_ common.ProtocolParameters,
 ) error {
 	validityIntervalStart := tx.ValidityIntervalStart()
-	if validityIntervalStart == 0 || slot >= validityIntervalStart {
-		return nil
+	// invalid-hereafter (body key 3): the transaction is valid only strictly
+	// before this slot. A zero value cannot be told apart from an absent
+	// field through the Transaction interface and is treated as absent.
+	invalidHereafter := tx.TTL()
+	if slot < validityIntervalStart ||
+		(invalidHereafter != 0 && slot >= invalidHereafter) {
+		return OutsideValidityIntervalUtxoError{
+			ValidityIntervalStart: validityIntervalStart,
+			InvalidHereafter:      invalidHereafter,
+			Slot:                  slot,
+		}
 	}
-	return OutsideValidityIntervalUtxoError{
-		ValidityIntervalStart: validityIntervalStart,
-		Slot:                  slot,
-	}
+	return nil
 }
 
 func UtxoValidateInputSetEmptyUtxo(
